@@ -552,6 +552,12 @@ func vfGenSigPlan(rt *rapid.T, c vfSigCfg, kind string, presign bool) (vfSigPlan
 		p.KeyID = "nobody"
 		p.Secret = "nobody's own secret" // not the secret of any configured key
 		p.Age = fresh()
+	case "empty-key-id":
+		// no key id at all; signed with the empty secret or some secret that no configured key has
+		// (never a configured one: rewriting the id would then yield a genuinely valid request)
+		p.KeyID = ""
+		p.Secret = rapid.SampledFrom([]string{"", "", "nobody's own secret"}).Draw(rt, "emptyIdSecret")
+		p.Age = fresh()
 	case "wrong-secret":
 		p.Secret = k.Secret + "x"
 		p.Age = fresh()
